@@ -6,7 +6,7 @@ From Coq Require Import List Arith ZArith Bool.
 Import ListNotations.
 From Acts.Gen Require Import GenState.
 From Acts.Model Require Import Engine Multi Serde.
-From Acts.Proofs Require Import MultiProofs.
+From Acts.Proofs Require Import ImageProofs MultiProofs.
 
 Theorem C17_accepted_observation :
   forall o, ret_check o = [] ->
@@ -22,6 +22,36 @@ Theorem C17_rm_model_keeps_other_models :
   forall st id j, j <> id -> mfind (ds_models (fst (drm st id))) j = mfind (ds_models st) j.
 Proof. exact rm_model_other_models. Qed.
 
+(* the retention rule as a machine: the product of the processes of one engine with the rule applied after every
+   operation (Multi.rstep).  With keep_processes off, whatever the processes do and in whatever order, a process
+   that has ended has no process row and no task row; with it on, every process's rows are the complete image of
+   the live process (C11) however the others are interleaved; and an operation on one process leaves the rows
+   (and everything else) of every other process as they were *)
+Theorem C17_ended_processes_leave_nothing :
+  forall xs s, (forall p, p < length s -> is_completed (pstate (nth p s deng)) = true -> rows (nth p s deng) = [] /\ prow (nth p s deng) = None) ->
+  forall p, p < length (rrun false s xs) ->
+  is_completed (pstate (nth p (rrun false s xs) deng)) = true ->
+  rows (nth p (rrun false s xs) deng) = [] /\ prow (nth p (rrun false s xs) deng) = None.
+Proof. exact retention_drop. Qed.
+Theorem C17_kept_processes_keep_everything :
+  forall xs s, (forall p, p < length s -> image_ok (nth p s deng)) ->
+  forall p, p < length s -> image_ok (nth p (rrun true s xs) deng).
+Proof. exact retention_keep. Qed.
+Theorem C17_other_processes_untouched :
+  forall keep s r o q, q <> r -> nth q (rstep keep s (SOp r o)) deng = nth q s deng.
+Proof. exact retention_others. Qed.
+(* non-vacuity: two processes; the first one completes and is dropped, the second one is still waiting and keeps its rows *)
+Example C17_example :
+  let ns := [ Build_node 0 KWorkflow 0 [(ONormal, 1)] None None false [] dspec [] [] [] [] [] [] false;
+              Build_node 1 KStep 1 [(ONormal, 2)] None None false [] dspec [] [] [] [] [] [] false;
+              Build_node 2 KAct 2 [] None None false [] dspec [] [] [] [] [] [] false ] in
+  let s := rrun false [start ns 1000; start ns 1000] [SOp 0 ODrain; SOp 1 ODrain; SOp 0 (OAct 2 ANext []); SOp 0 ODrain] in
+  pstate (nth 0 s deng) = SCompleted /\ rows (nth 0 s deng) = [] /\ prow (nth 0 s deng) = None /\
+  pstate (nth 1 s deng) = SRunning /\ length (rows (nth 1 s deng)) = 3.
+Proof. vm_compute. auto. Qed.
 Print Assumptions C17_accepted_observation.
+Print Assumptions C17_ended_processes_leave_nothing.
+Print Assumptions C17_kept_processes_keep_everything.
+Print Assumptions C17_other_processes_untouched.
 Print Assumptions C17_rm_model_removes_exactly_its_events.
 Print Assumptions C17_rm_model_keeps_other_models.
